@@ -52,35 +52,46 @@ fn norm_addr(a: usize) -> usize {
 
 /// tracked ids of the values that were reachable through a handle returned to a racer
 static REACHED: std::sync::Mutex<Vec<u64>> = std::sync::Mutex::new(Vec::new());
-fn hl(h: &assets_manager::Handle<L>) -> usize {
-    // read first (a scheduling point), then take the plain mutex: never hold it across a point
-    let id = h.read().t.0;
-    REACHED.lock().unwrap().push(id);
-    h as *const _ as usize
+/// Address of a returned handle; the value behind it is looked at only through the entry the map
+/// currently holds, and only if that is the same entry (a handle that differs from the map's may be
+/// dangling: it is reported by address, never dereferenced).
+fn hl(cache: &AssetCache<Mem>, key: &str, h: &assets_manager::Handle<L>) -> usize {
+    let a = h as *const _ as usize;
+    if let Some(g) = cache.get_cached::<L>(key) {
+        if g as *const _ as usize == a {
+            let id = g.read().t.0;
+            REACHED.lock().unwrap().push(id);
+        }
+    }
+    a
 }
-fn hv(h: &assets_manager::Handle<V>) -> usize {
-    // read first (a scheduling point), then take the plain mutex: never hold it across a point
-    let id = h.read().t.0;
-    REACHED.lock().unwrap().push(id);
-    h as *const _ as usize
+fn hv(cache: &AssetCache<Mem>, key: &str, h: &assets_manager::Handle<V>) -> usize {
+    let a = h as *const _ as usize;
+    if let Some(g) = cache.get_cached::<V>(key) {
+        if g as *const _ as usize == a {
+            let id = g.read().t.0;
+            REACHED.lock().unwrap().push(id);
+        }
+    }
+    a
 }
 
 fn run_op(cache: &AssetCache<Mem>, any: bool, op: &str, tid: usize, i: usize) -> String {
     let start = ds::now();
     let val = 100 * (tid as i64 + 1) + i as i64;
     let r = match (op, any) {
-        ("load", false) => cache.load::<L>("k").map(hl).ok(),
-        ("load", true) => cache.as_any_cache().load::<L>("k").map(hl).ok(),
-        ("goiL", false) => Some(hl(cache.get_or_insert::<L>("k", L::from(val)))),
-        ("goiL", true) => Some(hl(cache.as_any_cache().get_or_insert::<L>("k", L::from(val)))),
-        ("goiV", false) => Some(hv(cache.get_or_insert::<V>("k", V { v: val, t: Tracked::new() }))),
-        ("goiV", true) => Some(hv(cache.as_any_cache().get_or_insert::<V>("k", V { v: val, t: Tracked::new() }))),
-        ("cached", false) => cache.get_cached::<L>("k").map(hl),
-        ("cached", true) => cache.as_any_cache().get_cached::<L>("k").map(hl),
-        ("cachedV", _) => cache.get_cached::<V>("k").map(hv),
+        ("load", false) => cache.load::<L>("k").map(|h| hl(cache, "k", h)).ok(),
+        ("load", true) => cache.as_any_cache().load::<L>("k").map(|h| hl(cache, "k", h)).ok(),
+        ("goiL", false) => Some(hl(cache, "k", cache.get_or_insert::<L>("k", L::from(val)))),
+        ("goiL", true) => Some(hl(cache, "k", cache.as_any_cache().get_or_insert::<L>("k", L::from(val)))),
+        ("goiV", false) => Some(hv(cache, "k", cache.get_or_insert::<V>("k", V { v: val, t: Tracked::new() }))),
+        ("goiV", true) => Some(hv(cache, "k", cache.as_any_cache().get_or_insert::<V>("k", V { v: val, t: Tracked::new() }))),
+        ("cached", false) => cache.get_cached::<L>("k").map(|h| hl(cache, "k", h)),
+        ("cached", true) => cache.as_any_cache().get_cached::<L>("k").map(|h| hl(cache, "k", h)),
+        ("cachedV", _) => cache.get_cached::<V>("k").map(|h| hv(cache, "k", h)),
         ("contains", false) => cache.contains::<L>("k").then_some(1),
         ("contains", true) => cache.as_any_cache().contains::<L>("k").then_some(1),
-        ("loadj", _) => cache.load::<L>("j").map(hl).ok(),
+        ("loadj", _) => cache.load::<L>("j").map(|h| hl(cache, "j", h)).ok(),
         _ => panic!("bad op {op}"),
     };
     let end = ds::now();
